@@ -17,7 +17,10 @@ TRACED = ("psutil/__init__.py", "psutil/_common.py", "psutil/_pslinux.py")
 SOURCES = {
     "stat": ("cpu_times", "cpu_num"),
     "status": ("uids", "num_ctx_switches"),
+    # the third memoised source has no front-end memoised reader: two platform-level ones
+    "smaps": ("memory_full_info", "memory_maps"),
 }
+ASDICT = {"stat": ["cpu_num", "cpu_times"], "status": ["num_ctx_switches", "uids"], "smaps": ["memory_maps"]}
 
 
 def setver(w, v):
@@ -26,6 +29,12 @@ def setver(w, v):
     p.processor = v
     p.uids = (v, v, v, v)
     p.vol_ctx = v
+    if not p.maps:
+        from harness.simkernel import Mapping
+        p.maps = [Mapping(path="/bin/target")]
+        p.has_rollup = False          # memory_full_info() then sums the smaps listing
+    p.maps[0].kb["Rss"] = v
+    p.maps[0].kb["Pss"] = v
     w.ver = v
 
 
@@ -38,6 +47,13 @@ def version_of(method, val):
         return int(val.real)
     if method == "num_ctx_switches":
         return int(val.voluntary)
+    if method == "memory_full_info":
+        return int(val.pss) // 1024
+    if method == "memory_maps":
+        return int(val[0].rss) // 1024
+    if method == "as_dict":
+        k, v = sorted(val.items())[0]
+        return version_of(k, v)
     raise ValueError(method)
 
 
@@ -66,7 +82,7 @@ class Recorder:
         t = self.tname()
         self.ev.append({"e": "cs", "t": t, "m": m})
         try:
-            val = getattr(p, m)()
+            val = p.as_dict(ASDICT[self.src]) if m == "as_dict" else getattr(p, m)()
             self.ev.append({"e": "cr", "t": t, "m": m, "v": version_of(m, val), "exc": ""})
         except BaseException as ex:  # noqa: BLE001
             self.ev.append({"e": "cr", "t": t, "m": m, "v": -1, "exc": type(ex).__name__})
@@ -134,7 +150,7 @@ def seq_chunk(job):
                 else:
                     if rnd.random() < 0.2:    # a kernel event in the middle of the call
                         w.hooks.setdefault(w.acc + rnd.randint(0, 2), []).append(rec.bump)
-                    rec.call(p, rnd.choice([mF, mP]))
+                    rec.call(p, rnd.choice([mF, mP, mF, mP, "as_dict"]))
         prog(0)
         w.hooks.clear()
         traces.append({"kind": "sequential", "src": src, "ev": rec.ev})
@@ -151,6 +167,8 @@ PROGRAMS = [
     (["enter", "mP", "raise", "mP"], ["mP", "mF"], ["bump"]),
     (["enter", "enter", "mF", "exit", "exit", "mF"], ["mF"], ["bump", "bump"]),
     (["mF", "enter", "mF", "exit"], ["enter", "mP", "exit"], ["bump"]),
+    (["enter", "mF", "mP", "exit"], ["as_dict", "mF"], ["bump"]),
+    (["as_dict", "mP"], ["as_dict"], ["bump", "bump"]),
 ]
 
 
@@ -158,7 +176,7 @@ def thread_chunk(job):
     seed, prog_i, bound, limit = job
     w, ps = template()
     rnd = random.Random(seed)
-    src = "stat" if seed % 2 == 0 else "status"
+    src = ("stat", "status", "smaps")[seed % 3]
     mF, mP = SOURCES[src]
     progs = PROGRAMS[prog_i]
     traces = []
@@ -191,6 +209,8 @@ def thread_chunk(job):
                         elif op == "bump":
                             run.yield_point()
                             rec.bump()
+                        elif op == "as_dict":
+                            rec.call(p, "as_dict")
                         else:
                             rec.call(p, mF if op == "mF" else mP)
                 run_ops(False)
